@@ -110,6 +110,13 @@ class _ExactReadFile:
     def readline(self):
         return self._fileobj.readline()
 
+    def __getattr__(self, name):
+        # Everything else (tell, seek, name...) is the file object's own,
+        # except the other ways of reading, which could return short as well.
+        if name in ("readinto", "readinto1", "read1", "peek"):
+            raise AttributeError(name)
+        return getattr(self._fileobj, name)
+
 
 def _detect_compressor(fileobj):
     """Return the compressor matching fileobj.
